@@ -128,6 +128,19 @@ def init_usable(c0: int, c1: int, c2: int, c3: int, c4: int, readme_md: bool, re
             return False
         if want not in cfg.file_patterns:
             return False
+        # `show` reports this year's initial version, read from that file
+        env.echo.clear()
+        saved_vcs = cli._update_cfg_from_vcs
+        cli._update_cfg_from_vcs = lambda cfg, fetch: cfg
+        try:
+            try:
+                cli.show.callback(verbose=0, ignore_vcs_tag=False, fetch=False, env=False, environ=False)
+            except SystemExit:
+                return False
+        finally:
+            cli._update_cfg_from_vcs = saved_vcs
+        if env.echo[:1] != ["Current Version: " + str(YEAR) + ".1001-alpha"] or env.echo[1:2] != ["PEP440         : " + str(YEAR) + ".1001a0"]:
+            return False
         after = fs.snapshot()
         code2 = _run_init(False)
         return code2 not in (None, 0) and fs.files == after      # a second init refuses and changes nothing
